@@ -151,6 +151,8 @@ struct VThread {
     uintptr_t pending_wake[4];
     int npending;
     bool yielded;
+    int spin_threshold;   // identical periods needed for a spin suspicion (3; multiplied by 8 after every rescue)
+    int run[5];           // run[p]: number of consecutive log entries equal to the entry p positions earlier
     char notes[1024];
     int notes_len;
     char* stack_lo;
@@ -297,9 +299,12 @@ void decide(int me) {
             }
             if (all_done) { if (g_debug) (void)!write(2, "alldone\n", 8); wake_word(&g_main_go); return; }
             if (any_spin && g_rescues < 2) {
+                // nobody can run: the suspicion may have been wrong (a bounded read-only loop looks like a spin).  Release the
+                // suspects and do not suspect them again until they change memory; a thread that really spins then runs into
+                // the step horizon and is reported as a livelock.
                 g_rescues++;
                 for (int t = 0; t < NT; t++)
-                    if (T[t].st == T_BLOCKED_SPIN) T[t].st = T_RUNNABLE;
+                    if (T[t].st == T_BLOCKED_SPIN) { T[t].st = T_RUNNABLE; if (T[t].spin_threshold < 1500) T[t].spin_threshold *= 8; }
                 continue;
             }
             std::string w = "no enabled thread:";
@@ -348,18 +353,17 @@ void decide(int me) {
 }
 
 bool spinning(VThread& t) {
+    // called after an entry has been appended: update the run lengths, then test them
+    const LogEnt& e = t.log[(t.logn - 1) & 31];
     for (int p = 1; p <= 4; p++) {
-        if (t.logn < 3 * p) continue;
-        bool ok = true;
-        for (int i = 0; i < 3 * p && ok; i++)
-            if (t.log[(t.logn - 1 - i) & 31].wrote) ok = false;
-        for (int i = 0; i < p && ok; i++) {
-            const LogEnt& a = t.log[(t.logn - 1 - i) & 31];
-            const LogEnt& b = t.log[(t.logn - 1 - i - p) & 31];
-            const LogEnt& c = t.log[(t.logn - 1 - i - 2 * p) & 31];
-            if (a.pc != b.pc || a.addr != b.addr || a.val != b.val || a.pc != c.pc || a.addr != c.addr || a.val != c.val) ok = false;
+        if (t.logn > p && !e.wrote) {
+            const LogEnt& b = t.log[(t.logn - 1 - p) & 31];
+            if (!b.wrote && e.pc == b.pc && e.addr == b.addr && e.val == b.val) { t.run[p]++; continue; }
         }
-        if (ok) {
+        t.run[p] = 0;
+    }
+    for (int p = 1; p <= 4; p++) {
+        if (t.run[p] >= (t.spin_threshold - 1) * p) {
             t.nspin = 0;
             for (int i = 0; i < p; i++) {
                 uintptr_t a = t.log[(t.logn - 1 - i) & 31].addr;
@@ -367,6 +371,7 @@ bool spinning(VThread& t) {
                 for (int k = 0; k < t.nspin; k++) if (t.spin_addrs[k] == a) dup = true;
                 if (!dup && t.nspin < 8) t.spin_addrs[t.nspin++] = a;
             }
+            for (int q = 1; q <= 4; q++) t.run[q] = 0;
             return true;
         }
     }
@@ -389,10 +394,9 @@ void after_op(void* pc, uintptr_t addr, unsigned long long val, bool wrote) {
     LogEnt& e = t.log[t.logn & 31];
     e.pc = pc; e.addr = addr; e.val = val; e.wrote = wrote;
     t.logn++;
-    if (wrote) { wake_spinners(addr); return; }
+    if (wrote) { for (int q = 1; q <= 4; q++) t.run[q] = 0; wake_spinners(addr); return; }
     if (spinning(t)) {
         t.st = T_BLOCKED_SPIN;
-        t.logn = 0;
         decide(me);
     }
 }
@@ -430,6 +434,7 @@ void plain_access(void* p, int sz, bool write, bool is_volatile, void* pc) {
             LogEnt& e = t.log[t.logn & 31];
             e.pc = pc; e.addr = a; e.val = 0; e.wrote = true;
             t.logn++;
+            for (int q = 1; q <= 4; q++) t.run[q] = 0;
             g_rescues = 0;
         } else {
             after_op(pc, a, peek(a, sz > 8 ? 8 : sz), false);
@@ -500,7 +505,7 @@ int run_execution(int scenario) {
     NT = vs_setup(scenario);
     if (NT < 1 || NT > VS_MAX_THREADS) { fprintf(stderr, "vsched: bad thread count %d\n", NT); _exit(2); }
     for (int i = 0; i < NT; i++) {
-        T[i].st = T_RUNNABLE; T[i].logn = 0; T[i].npending = 0; T[i].yielded = false; T[i].notes_len = 0; T[i].nspin = 0;
+        T[i].st = T_RUNNABLE; T[i].logn = 0; T[i].npending = 0; T[i].yielded = false; T[i].notes_len = 0; T[i].nspin = 0; T[i].spin_threshold = 3; for (int q = 0; q < 5; q++) T[i].run[q] = 0;
         if (!T[i].created) {
             g_arena_on = 0;
             pthread_attr_t at;
@@ -906,6 +911,7 @@ int main(int argc, char** argv) {
     }
     if (from < 0) { fprintf(stderr, "usage: harness --list | --explore S [--bound B] | --range A B | --replay S --schedule c0,c1,.. [--conflicts a,b,..] [--forced]\n"); return 2; }
     int nsc = vs_nscenarios();
+    g_debug = getenv("VSCHED_DEBUG") != nullptr;
     if (replay) {
         memset(S, 0, sizeof(Shared));
         S->use_dpoints = dpoints;
